@@ -207,6 +207,26 @@ class Native:
         al._keep = arr
         return al
 
+    def attrlist_shared(self, La, Lb, vals):
+        """two list HEADERS over ONE attribute array (what `to = from; to.length = n; to.omit... = true` produces in caller code): possible when
+        the entries of one list are a prefix of the other's. Returns (header a, header b) or None. The headers keep their own length and
+        omitAllFromKeysUnlessPresent."""
+        ea, eb = [list(e) for e in La["e"]], [list(e) for e in Lb["e"]]
+        longer, shorter = (ea, eb) if len(ea) >= len(eb) else (eb, ea)
+        if longer[:len(shorter)] != shorter:
+            return None
+        big = self.attrlist({"e": longer, "omit": False}, vals)
+        arr = big._keep
+        out = []
+        for Lx in (La, Lb):
+            al = self.L.buf(self.sz["wk_attributelist"])
+            ctypes.memmove(ctypes.byref(al, self.off["wk_attributelist.attrs"]), ctypes.addressof(arr).to_bytes(8, "little"), 8)
+            ctypes.memmove(ctypes.byref(al, self.off["wk_attributelist.length"]), len(Lx["e"]).to_bytes(8, "little"), 8)
+            ctypes.memmove(ctypes.byref(al, self.off["wk_attributelist.omitAllFromKeysUnlessPresent"]), b"\x01" if Lx["omit"] else b"\x00", 1)
+            al._keep = arr
+            out.append(al)
+        return tuple(out)
+
     def plain_list(self, pairs):
         """attribute list for encryption/signing from [(idx, integer value)] or [(idx, integer value, marked)]: a marked entry has
         omitFromKeys set, which precompute / encrypt / sign / verify must ignore"""
@@ -335,6 +355,14 @@ class World:
     def al(self, Ls):
         return self.N.attrlist(Ls, self.vals)
 
+    def al_pair(self, La, Lb, share=False):
+        """native headers for two lists; share=True: over one attribute array when the entries allow it (else separate arrays)"""
+        if share:
+            sh = self.N.attrlist_shared(La, Lb, self.vals)
+            if sh is not None:
+                return sh
+        return self.al(La), self.al(Lb)
+
     def newkey(self, slots):
         return SecretKey(self.N, max(0, slots))
 
@@ -372,7 +400,8 @@ class World:
             fs = self.N.sz["wk_freeslot"]
             n = min(max(child.l, 0), out.slots)
             ctypes.memmove(out.b, child.b.raw[:fs * n], fs * n)
-            C("embedded_pairing_wkdibe_adjust_nondelegable", out.buf, key.buf, self.al(op[1]), self.al(op[2]))
+            alf, alt = self.al_pair(op[1], op[2], share=(len(op) > 3 and op[3] == "shared"))
+            C("embedded_pairing_wkdibe_adjust_nondelegable", out.buf, key.buf, alf, alt)
             return out
         raise ValueError(name)
 
